@@ -131,6 +131,36 @@ class Expr(ast.NodeTransformer):
         return node
 
 
+_SIMPLE = (ast.Name, ast.Constant, ast.Attribute, ast.expr_context, ast.operator, ast.unaryop, ast.cmpop, ast.boolop, ast.keyword, ast.Starred,
+           ast.Tuple, ast.List, ast.Subscript, ast.Slice, ast.UnaryOp, ast.BinOp, ast.Compare, ast.JoinedStr, ast.FormattedValue)
+
+
+def _eval_order(node):
+    """Sub-expressions of `node` in (approximate) evaluation order, parents after their operands."""
+    if isinstance(node, ast.Assign):
+        yield from _eval_order(node.value)
+        for t in node.targets:
+            yield from _eval_order(t)
+        return
+    if isinstance(node, ast.AugAssign):
+        yield from _eval_order(node.target)
+        yield from _eval_order(node.value)
+        return
+    for c in ast.iter_child_nodes(node):
+        yield from _eval_order(c)
+    yield node
+
+
+def _evaluated_first(holder, use):
+    """Is `use` reached before anything that could have an effect (a call, a comprehension, an await...)?"""
+    for n in _eval_order(holder):
+        if n is use:
+            return True
+        if not isinstance(n, _SIMPLE):
+            return False
+    return False
+
+
 def _terminates(block):
     return bool(block) and isinstance(block[-1], TERMINATORS)
 
@@ -218,7 +248,7 @@ class Canon:
         v = st.targets[0].id
         if self.counts.get(id(outer), {}).get(v, 0) != 2:
             return False
-        if any(isinstance(n, (ast.Yield, ast.YieldFrom, ast.Await, ast.NamedExpr, ast.Lambda)) for n in ast.walk(st.value)):
+        if any(isinstance(n, (ast.Yield, ast.YieldFrom, ast.Await, ast.NamedExpr)) for n in ast.walk(st.value)):
             return False
         # where may the single use be?  Only in the part of the next statement that is evaluated exactly once, first.
         if isinstance(nxt, (ast.Return, ast.Expr, ast.Assign, ast.AugAssign, ast.AnnAssign, ast.Raise, ast.Assert, ast.Delete)):
@@ -233,6 +263,9 @@ class Canon:
             return False
         uses = [n for n in _names_in(holder) if n.id == v and isinstance(n.ctx, ast.Load)]
         if len(uses) != 1:
+            return False
+        # evaluation order: nothing with an effect may be evaluated between the assignment and the use
+        if not _evaluated_first(holder, uses[0]):
             return False
         # not inside a lambda/comprehension of the holder (would change how often it is evaluated)
         target = uses[0]
@@ -343,6 +376,8 @@ def canonical_snippet(text):
     c = Canon()
     wrapper = Expr().visit(wrapper)
     f = wrapper.body[0]
-    c.counts[id(f)] = {}  # no inlining inside snippets: names may be used outside the fragment
+    # single-use temporaries are inlined inside the fragment as they are in the analysed code, unless the pattern opts
+    # out (first line `#keep`): needed when the real code uses the name again outside the fragment
+    c.counts[id(f)] = {} if text.lstrip().startswith("#keep") else c._count(f)
     f.body = c.block(f.body, f)
     return f.body
